@@ -166,6 +166,9 @@ func (x *X) localResolver(fr *Frame, pos token.Pos, extra map[string]types.Type)
 		if t, ok := extra[name]; ok {
 			return t, true
 		}
+		if strings.HasPrefix(name, "rangeindex") {
+			return types.Typ[types.Int], true
+		}
 		if len(name) == 2 && name[0] == 'r' && name[1] >= '0' && name[1] <= '9' {
 			return baseRes(name)
 		}
@@ -179,6 +182,44 @@ func (x *X) localResolver(fr *Frame, pos token.Pos, extra map[string]types.Type)
 		vars := map[string]SV{}
 		for k, v := range base {
 			vars[k] = v
+		}
+		// hidden index of the innermost range loop around pos
+		{
+			var best *ssa.Alloc
+			for v := range fr.vals {
+				a, ok := v.(*ssa.Alloc)
+				if !ok || a.Comment != "rangeindex" {
+					continue
+				}
+				if _, ok := st.mem[fr.vals[a].(*PtrV).key]; !ok {
+					continue
+				}
+				if best == nil || a.Block().Index > best.Block().Index {
+					best = a
+				}
+			}
+			if best != nil {
+				vars["rangeindex"] = x.load(st, fr.vals[best].(*PtrV))
+			}
+			// rangeindexN: hidden index of the range loop with ordinal N
+			for _, li := range findLoops(fr.fn) {
+				for _, in := range li.header.Instrs {
+					u, ok := in.(*ssa.UnOp)
+					if !ok {
+						continue
+					}
+					a, ok := u.X.(*ssa.Alloc)
+					if !ok || a.Comment != "rangeindex" {
+						continue
+					}
+					if p, ok := fr.vals[a].(*PtrV); ok {
+						if _, ok := st.mem[p.key]; ok {
+							vars[fmt.Sprintf("rangeindex%d", li.ordinal)] = x.load(st, p)
+						}
+					}
+					break
+				}
+			}
 		}
 		for name, v := range found {
 			if _, ok := vars[name]; ok {
@@ -240,6 +281,7 @@ type loopRT struct {
 	head     *State
 	variants []Term
 	invs     []*Clause
+	backEdges int
 }
 
 var loopRTs = map[*Frame]map[*loopInfo]*loopRT{}
@@ -350,10 +392,15 @@ func (x *X) backEdge(fr *Frame, li *loopInfo, st *State) {
 	if rt == nil {
 		return
 	}
+	rt.backEdges++
+	suffix := ""
+	if rt.backEdges > 1 {
+		suffix = fmt.Sprintf("#%d", rt.backEdges)
+	}
 	for _, cl := range rt.invs {
 		t, ok := x.evalLoopClause(fr, li, cl, st, rt.pre)
 		if ok {
-			x.obligation(st, "inv-preserve", fmt.Sprintf("loop%d:%s", li.ordinal, clauseLabel(cl)), t, token.NoPos, cl.Text, cl.Props)
+			x.obligation(st, "inv-preserve", fmt.Sprintf("loop%d:%s%s", li.ordinal, clauseLabel(cl), suffix), t, token.NoPos, cl.Text, cl.Props)
 		}
 	}
 	_, decs := x.loopClauses(fr, li)
@@ -415,6 +462,7 @@ func (x *X) havocLoop(fr *Frame, li *loopInfo, head, pre *State) {
 			for i := 0; i < f.Signature.Results().Len(); i++ {
 				rt := f.Signature.Results().At(i).Type()
 				x.callTraceKey(cn, "ret", fmt.Sprint(i), x.enc.sortOf(rt), rt)
+				x.callTraceKey(cn, "first", fmt.Sprint(i), x.enc.sortOf(rt), rt)
 			}
 		}
 		for k := range x.keys {
@@ -518,10 +566,8 @@ func deferTargets(d *ssa.Defer) []fieldRef {
 		if callee, ok := v.Call.Value.(*ssa.Function); ok {
 			for _, b := range callee.Blocks {
 				for _, in := range b.Instrs {
-					if r, ok := in.(*ssa.Return); ok && len(r.Results) == 1 {
-						if mc, ok := r.Results[0].(*ssa.MakeClosure); ok {
-							clos = mc.Fn.(*ssa.Function)
-						}
+					if mc, ok := in.(*ssa.MakeClosure); ok && clos == nil {
+						clos = mc.Fn.(*ssa.Function)
 					}
 				}
 			}
@@ -704,7 +750,7 @@ func verifyFunction(prog *ssa.Program, db *ContractDB, fn *ssa.Function, c *Cont
 		e := rets[1].(Term)
 		x.obligation(out, "post", "E6-error-propagated", mkImplies(mkNot(mkEq(pe, intLit(0))), mkEq(e, pe)), token.NoPos,
 			"an error returned by an executor callee is returned unchanged", []string{"C05", "C08", "C20"})
-		if kind == "item" {
+		if kind == "item" && (c == nil || !c.NoE6Failure) {
 			pf := x.get(out, x.pendingFailedKey())
 			x.obligation(out, "post", "E6-failure-propagated", mkImplies(pf, mkEq(rets[0].(Term), x.enc.intConst(2, types.Typ[types.Uint8]))), token.NoPos,
 				"a failed status of an executor callee leaves the function as failed", []string{"C05", "C07", "C20"})
